@@ -6,6 +6,7 @@ package main
 // run identical further blocks on both and compare app hashes / results.
 
 import (
+	kiratypes "github.com/KiraCore/sekai/types"
 	sdkmath "cosmossdk.io/math"
 	mskeeper "github.com/KiraCore/sekai/x/multistaking/keeper"
 	mstypes "github.com/KiraCore/sekai/x/multistaking/types"
@@ -437,13 +438,28 @@ var c12Expected = map[string]string{
 // upgrade BeginBlocker (validators that did not approve are paused and the plan is marked processed; one block later it
 // becomes the current plan).
 func c12UpgradeWindow(r *Rec) {
+	// the plan's resources: an arbitrary one, or - what a real release plan carries - the `sekai` binary itself, at the version
+	// the running binary reports or at the next one
+	for variant, res := range [][]upgradetypes.Resource{
+		{{Id: "kira", Url: "u", Version: "v", Checksum: "c"}},
+		{{Id: "sekai", Url: "u", Version: kiratypes.SekaiVersion, Checksum: "c"}, {Id: "interx", Url: "u", Version: "v9", Checksum: "c"}},
+		{{Id: "sekai", Url: "u", Version: "v9.9.9", Checksum: "c"}},
+	} {
+		if r.Tier == "quick" && variant != 1 && variant != 2*(int(r.Seed)%2) {
+			continue
+		}
+		c12UpgradeWindowWith(r, res)
+	}
+}
+
+func c12UpgradeWindowWith(r *Rec, resources []upgradetypes.Resource) {
 	r.Mark("upgrade plan window")
 	w := NewWorld(WorldOpts{NAcc: 6, NVal: 3, SudoAccs: []int{5}})
 	ms := govkeeper.NewMsgServerImpl(w.app.CustomGovKeeper)
 	upAt := w.now.Unix() + 900
 	var pid uint64
 	br := w.Block(nil, BlockOpts{Dt: 6 * time.Second, Mid: func(ctx sdk.Context) {
-		content := upgradetypes.NewSoftwareUpgradeProposal("upg", []upgradetypes.Resource{{Id: "kira", Url: "u", Version: "v", Checksum: "c"}}, upAt, chainID, "verif-2", "memo", 600, "up", true, false, true)
+		content := upgradetypes.NewSoftwareUpgradeProposal("upg", resources, upAt, chainID, "verif-2", "memo", 600, "up", true, false, true)
 		m, err := govtypes.NewMsgSubmitProposal(w.addrs[5], "t", "d", content)
 		if err != nil {
 			return
